@@ -178,6 +178,8 @@ for _pid, _m, _c in (("C01", "MC_PROD", "MC_PROD_c18.cfg"), ("C03", "MC_C03", "M
 PROPS["C20"]["quick"].append({"module": "MC_C20", "cfg": "MC_C20w_quick.cfg", "nprimes": 6, "require_acts": ["Query", "TruncCall"]})
 # observations / conditioning points tens of standard deviations away from the model (log-densities of -1e3 .. -1e4)
 PROPS["C10"]["quick"].append({"module": "MC_COND", "cfg": "MC_C10_far.cfg", "nprimes": 14, "require_acts": ["SetY", "CondOnX"]})
+# product() of the specialised kinds themselves (R = 1 included), followed by an in-place operation on the result
+PROPS["C15"]["quick"].append({"module": "MC_PROD", "cfg": "MC_PROD_c18.cfg", "nprimes": 6, "require_acts": ["Product", "Normalize"]})
 PROPS["C12"]["quick"].append({"kind": "b2", "traces": 80, "length": 6, "family": "MC", "nprimes": 10})
 PROPS["C02"]["quick"].append({"kind": "b2", "traces": 60, "length": 6, "family": "MC", "nprimes": 10})
 _THOROUGH_SAMPLING = {"MC_C04M_thorough.cfg": 40, "MC_C04C_thorough.cfg": 24, "MC_C12M_thorough.cfg": 60, "MC_C12C_thorough.cfg": 12}
